@@ -68,6 +68,10 @@ func init() {
 }
 
 func runC03(c *Ctx, r *Report) {
+	r.Rule("C03/no-foreign-append", "no library function appends to a shortened view of a buffer it was only handed (the framed request, once built, is not written into again)", 1)
+	checkNoAppendIntoForeignSlice(c, r, "C03/no-foreign-append", nil)
+	r.Rule("C03/settings-writers", "the NETCONF driver's settings (self-closing tags, preferred version, ...) are written only by options, constructors and their listed run-time owners", 1)
+	checkSettingsWriters(c, r, "C03/settings-writers", []string{"driver/netconf"})
 	importFoundation(c, r, "C03", "transport-pipe")
 	r.Rule("C03/fresh-operation", "netconf.NewOperation hands every caller a freshly allocated options object: the filter / defaults mode / commit arguments of one request never show up in a later one", 1)
 	checkFreshOperation(c, r, "C03/fresh-operation", []string{"driver/netconf"})
